@@ -145,9 +145,9 @@ CHECKS += [
 
 CHECKS += [
     {
-        "property_id": "C14", "engine": "symx", "category": "model_checking",
+        "property_id": "C14", "engine": "symx+crosshair", "category": "model_checking",
         "technique": "bounded symbolic execution of reck_decomposition / Reck.map with symbolic angles (arctan, angle, abs as algebraic angle objects) and symbolic error-model draws + z3",
-        "text": "bs_matrix is unitary for all theta, phi; for every 2x2 unitary, every monomial matrix P.diag(e^{i alpha}) with N<=3 (identity, permutations: the exactly-zero-entry region) and 1 (+) U(2), with and without heralds, Reck().map gives a circuit of adjacent beam splitters and phase shifters whose U equals the original (exactly, or within 1e-9 on the paths where an entry is below the library's 1e-20 null test - those few obligations may come back inconclusive and are reported), with the original's heralds and every programmed phase in [0, 2 pi); TopHat/Constant/Gaussian values lie within their symbolic bounds; a noisy mapping is still unitary with U a sub-block and the same seed gives the same circuit.",
+        "text": "bs_matrix is unitary for all theta, phi; for every 2x2 unitary, every monomial matrix P.diag(e^{i alpha}) with N<=3 (identity, permutations: the exactly-zero-entry region) and 1 (+) U(2), with and without heralds, Reck().map gives a circuit of adjacent beam splitters and phase shifters whose U equals the original (exactly, or within 1e-9 on the paths where an entry is below the library's 1e-20 null test - those few obligations may come back inconclusive and are reported), with the original's heralds and every programmed phase in [0, 2 pi); TopHat/Constant/Gaussian values lie within their symbolic bounds; a noisy mapping is still unitary with U a sub-block and the same seed gives the same circuit. One CrossHair condition runs the real float code on every permutation circuit of 2-4 modes (with and without a herald): every programmed phase is strictly below 2*pi and the unitary is reproduced - the float side of the range clause, which holds by definition over the reals.",
         "design_ref": "DESIGN.md section 4 C14", "note": SYMX_NOTE + " Dense unitaries of size >= 3 are outside (nested radicals); Gaussian resampling is unrolled 4 times.",
     },
 ]
